@@ -78,7 +78,7 @@ Definition sg_hat (t : vec) : mat :=
 (* SGal3TangentBase::fillE *)
 Definition fillE (w : vec) : mat :=
   let theta_sq := sqnorm w in
-  if kltb F theta_sq eps then I33 c_half
+  if kltb F theta_sq eps then madd (I33 c_half) (mscale c_1_6d (skew3 w))
   else
     let theta := ksqrt F theta_sq in
     let A := (theta - ksin F theta) / theta_sq / theta in
